@@ -226,8 +226,12 @@ def judge(inst):
     inp = synth.read_bam(bam)
     # ---- conservation
     if region:
-        lo, hi = 89, 150  # chrA:90-150
-        keep = [i for i, r in enumerate(inp) if r["tid"] == 0 and r["start"] < hi and _end(r) > lo]
+        # chrA:90-150 -> [89, 150): 1-based closed intervals; an alignment belongs to the output iff it overlaps one
+        ivs = []
+        for spec in region:
+            a_, b_ = spec.split(":")[1].split("-")
+            ivs.append((int(a_) - 1, int(b_)))
+        keep = [i for i, r in enumerate(inp) if r["tid"] == 0 and any(r["start"] < hi and _end(r) > lo for lo, hi in ivs)]
     else:
         keep = list(range(len(inp)))
     exp = [inp[i] for i in keep]
@@ -240,7 +244,7 @@ def judge(inst):
             break
     # ---- decision rule
     sets1 = design["sets"]
-    in_region = [True] * 4 if not region else [lo <= p < hi for p in POS]
+    in_region = [True] * 4 if not region else [any(lo <= p < hi for lo, hi in ivs) for p in POS]
     ign_rg = kw.get("ignore_read_groups", False)
     names = {}
     for m in meta:
@@ -464,6 +468,7 @@ def option_vectors(T):
         {"use_reference": False},
         {"ignore_read_groups": True, "given_samples": ["S1"]},
         {"linked_read_distance_cutoff": 50},
+        {"regions": ["chrA:50-110", "chrA:111-200"]},
     ]
     if T:
         ov += [{"tag_supplementary": True, "ignore_linked_read": True}, {"regions": ["chrA:90-150"], "tag_supplementary": True}, {"use_reference": False, "ignore_read_groups": True, "given_samples": ["S1"]}]
